@@ -1,7 +1,7 @@
 (** C15 — property theorems only.  Each is closed by [exact] of a lemma in Proofs*.v and followed by
     [Print Assumptions]. *)
 From Coq Require Import Sorting.Permutation.
-From V Require Import Base.Util Gql.Ast C15.Model C15.Spec C15.Proofs1 C15.Proofs2 C15.Proofs3 C15.Proofs4 C15.Proofs5 C15.Proofs C15.Corr C15.CorrProofs.
+From V Require Import Base.Util Gql.Ast C15.Model C15.Spec C15.Proofs1 C15.Proofs2 C15.Proofs3 C15.Proofs4 C15.Proofs5 C15.Proofs C15.CheckBridge C15.Corr C15.CorrProofs.
 
 (** For every schema model M satisfying the guard, every key style and with or without the introspection types in
     the result: the JSON route accepts the standard introspection result of M, and the Schema it builds is
@@ -81,6 +81,42 @@ Theorem C15_printers_see_same_types : forall st meta M D,
 Proof. exact printers_see_same_types. Qed.
 Print Assumptions C15_printers_see_same_types.
 
+(** Bridge to C03's model of the operation checker (V.C03.Model, tied to crates/checker by C03's correspondence): the
+    accessors through which that model reads a schema document S are the observations of [ast_to_type_system S] that
+    [schema_equiv_on] compares — lookups, iteration order, root types — and the root decision at the head of its
+    check_operation is [root_type]. *)
+Theorem C15_checker_model_reads_schema : forall S,
+  (forall n, option_map conv_td (V.C03.Model.get_type S n) = lookup n (sc_types (ast_to_type_system S)))
+  /\ (forall n, option_map conv_dd (V.C03.Model.get_directive S n) = lookup n (sc_dirs (ast_to_type_system S)))
+  /\ map convert_type_definition (V.C03.Model.iter_types S) = sc_types (ast_to_type_system S)
+  /\ roots_rel (V.C03.Model.root_types S) (sc_roots (ast_to_type_system S)).
+Proof.
+  intros S. exact (conj (k_get_type_is_schema_lookup S) (conj (k_get_directive_is_schema_lookup S)
+                  (conj (k_iter_types_is_schema_table S) (k_root_types_is_schema_roots S)))).
+Qed.
+Print Assumptions C15_checker_model_reads_schema.
+
+(** First slice of check_respects_equiv: under the hypotheses of C15_routes_agree, C03's checker model run on the SDL
+    document D rejects an operation at the root (exactly one diagnostic) when the JSON route's Schema has no root type for
+    its kind, and otherwise proceeds with a root type definition that is, up to positions and default-value text, the one
+    the JSON route's Schema holds under that name. *)
+Theorem C15_root_decision_agrees : forall st meta M D,
+  model_ok M = true -> doc_equiv D (sdl_doc M) -> parsed_positions D ->
+  exists Sj, json_route (introspect st meta M) = Ok Sj /\
+    forall fuel fm op,
+      (root_type Sj (op_type op) = None -> exists e, V.C03.Model.check_operation fuel D fm op = [e])
+      /\ (forall n, root_type Sj (op_type op) = Some n ->
+            exists root, V.C03.Model.get_type D n = Some root
+              /\ option_map norm_typedef (get_type Sj n) = Some (norm_typedef (nval (conv_td root)))
+              /\ V.C03.Model.check_operation fuel D fm op =
+                   V.C03.Model.check_directives D (op_vars op) (V.C03.Model.op_location (op_type op)) (op_dirs op)
+                   ++ match op_vars op with Some vs => V.C03.Model.check_variables_definition D vs | None => [] end
+                   ++ (if optype_eqb (op_type op) Subscription && Nat.ltb 1 (V.C03.Model.count_fields fuel fm [] (op_sel op))
+                       then [V.C03.Model.err0 V.C03.Model.SubscriptionMustHaveExactlyOneRootField (op_pos op)] else [])
+                   ++ V.C03.Model.check_selection_set fuel D fm (op_vars op) [] root (op_sel op)).
+Proof. exact root_decision_agrees. Qed.
+Print Assumptions C15_root_decision_agrees.
+
 (** The boolean comparison the correspondence run evaluates on the implementation's two Schema values
     (Corr.holds on a CRoutes case) implies the equivalence stated above. *)
 Theorem C15_schema_equiv_b_sound : forall vis a b, schema_equiv_b vis a b = true -> schema_equiv_on vis a b.
@@ -102,16 +138,18 @@ Theorem C15_certified_case : forall st meta M D J out_sdl out_json,
 Proof. exact certified_case. Qed.
 Print Assumptions C15_certified_case.
 
-(** The guard and the restriction to [vis_of M] are needed by the code as it is: *)
-Theorem C15_shadow_root_refuted :
-  exists M D Sj,
-    dirs_ok M = true /\ implicit_roots_ok M = true /\ roots_ok M = true /\ desc_ok M = true
-    /\ doc_equiv D (sdl_doc M) /\ parsed_positions D
-    /\ json_route (introspect Full false M) = Ok Sj
-    /\ root_type Sj Mutation = Some (s "Mutation")
+(** The restriction to [vis_of M] is needed by the code as it is: *)
+(** regression witness of the repaired root-type defect: a type named Mutation that is not a root exists on both
+    routes, and neither route resolves a mutation operation to it *)
+Theorem C15_shadow_root_agrees :
+  exists D Sj,
+    doc_equiv D (sdl_doc shadow_model) /\ parsed_positions D
+    /\ json_route (introspect Full false shadow_model) = Ok Sj
+    /\ get_type Sj (s "Mutation") <> None
+    /\ root_type Sj Mutation = None
     /\ root_type (ast_to_type_system D) Mutation = None.
-Proof. exact shadow_root_refuted. Qed.
-Print Assumptions C15_shadow_root_refuted.
+Proof. exact shadow_root_agrees. Qed.
+Print Assumptions C15_shadow_root_agrees.
 
 Theorem C15_unreferenced_builtin_refuted :
   exists M D Sj,
